@@ -127,11 +127,29 @@ def run(ck, fx, cg, tier):
                                     return True
             return False
         uses_size_fn = _size_call(rhs)
-        cumulative = su["k"] == "AssignOp" and su["op"] == "AddAssign" or (
-            su["k"] == "Assign" and any(x.get("k") == "Field" and x.get("name") == "size" for x, _ in walk(rhs)))
+        # the increment is EXACTLY the shape size: `size += <shape size>` or `size = size + <shape size>` (either order);
+        # anything else applied to the old total (rounding, alignment, scaling) makes the increment depend on what was
+        # allocated before, not only on the created value's shape
+        def _is_old_total(e):
+            e = peel(e)
+            return e.get("k") == "Field" and e.get("name") == "size" and e.get("adt") == HEAP
+
+        def _is_shape_size(e):
+            e = peel(e)
+            if e.get("k") in ("Call", "MethodCall"):
+                return callee_name(e) == A.get("heapobject.size") and obj_param is not None and mentions_local(e, obj_param)
+            if e.get("k") == "Path" and (e.get("res") or {}).get("k") == "Local":
+                return _size_call(e)
+            return False
+        r0 = peel(rhs)
+        if su["k"] == "AssignOp":
+            cumulative = su["op"] == "AddAssign" and _is_shape_size(r0)
+        else:
+            cumulative = r0.get("k") == "Binary" and r0.get("op") == "Add" and (
+                (_is_old_total(r0["lhs"]) and _is_shape_size(r0["rhs"])) or (_is_old_total(r0["rhs"]) and _is_shape_size(r0["lhs"])))
         ck.ob("R16.onepush", "allocate|size += shape size of the allocated object", uses_size_fn and cumulative, loc(su),
               "size update is %s and %s HeapObject::size(<allocated object>)" % (
-                  "cumulative" if cumulative else "NOT cumulative", "uses" if uses_size_fn else "does NOT use"))
+                  "old total + shape size, nothing else" if cumulative else "NOT exactly `old total + shape size` (the increment then depends on more than the created value's shape)", "uses" if uses_size_fn else "does NOT use"))
         ck.ob("R16.onepush", "allocate|update before log", pos[id(su)] < pos[id(lw)] and not loops[id(su)] and not branch[id(su)],
               loc(lw), "size update %s the log write" % ("precedes" if pos[id(su)] < pos[id(lw)] else "FOLLOWS"))
         ck.ob("R16.onepush", "allocate|log before push", pos[id(lw)] < pos[id(pu)] and not loops[id(pu)] and not branch[id(pu)],
